@@ -146,8 +146,11 @@ def dcontent(d):
 STR_BARE = ["abc", "A_b1", "x.y", "a-b", "path/to/x", "1.2.3", "1.0-beta", "$VAR", "$1:name", "§X", "§1",
             "A→B", "A⊕B⧺C", "A⇌B", "A∨B", "a@b", "NAME<q>", "NAME<a,b>", "A:B", "60%", "é", "😀x", "A→§B"]
 STR_QUOTED = ["hello world", "2.50%", "07%", "60%→B", 'see "List<int>"', 'a "q" b', "", "true", "null", "vs", "42", "-1.5", "1e3", 'a"b', "a\\b", "l1\nl2", "t\tx", " lead", "trail ",
-              "a::b", "[x]", "a,b", "// no", "#tag", "===END===", "---", "a → b", "->", "§", "x:", "K::v", "a<b", "`", "```", "é é", "a\rb", "a\x0cb", "a\x0bb", "a\x85b", "a\u2028b", "a\u00a0b", "\\n", "\\\\", "a\\"]
-NUMS = [I(0), I(-7), I(42), F(3.14), F(-0.5), F(1e10), F(1e22), F(1e-7), F(1.5e-07), F(2.5e+17), F(-6.02e+23)]
+              "a::b", "[x]", "a,b", "// no", "#tag", "===END===", "---", "a → b", "->", "§", "x:", "K::v", "a<b", "`", "```", "é é", "a\rb", "a\x0cb", "a\x0bb", "a\x85b", "a\u2028b", "a\u00a0b", "\\n", "\\\\", "a\\",
+              "src//lib", "a//b", "x//", "a\\rb", "\\r\\n"]
+NUMS = [I(0), I(-7), I(42), F(3.14), F(-0.5), F(1e10), F(1e22), F(1e-7), F(1.5e-07), F(2.5e+17), F(-6.02e+23),
+        # values that compare equal to a boolean / to each other in Python (True == 1 == 1.0, 0.0 == -0.0 == False): any cache or dict keyed by value merges them
+        I(1), F(1.0), F(0.0), F(-0.0), F(2.0)]
 SCALARS = ([S(t, "bare") for t in STR_BARE] + [S(t, "quoted") for t in STR_QUOTED] + NUMS + [Bo(True), Bo(False), NULL])
 LISTS = [
     Lst(), Lst(S("a")), Lst(S("a"), S("b")), Lst(S("a"), S("b"), S("c")), Lst(S("a"), S("b"), S("c"), S("d")),
